@@ -111,11 +111,26 @@ def expected (t : Table) : List (Nat × Key) :=
   [(2, exp2), (28, exp28), (31, exp31), (32, exp32), (33, exp33), (34, exp34), (35, exp35), (36, exp36 (trans36 t)),
    (37, expQuoted 39), (38, expQuoted 34), (39, exp39)]
 
+def allBytes : List UInt8 := (List.range 256).map UInt8.ofNat
+
+theorem mem_allBytes (x : UInt8) : x ∈ allBytes := by
+  unfold allBytes
+  rw [List.mem_map]
+  exact ⟨x.toNat, List.mem_range.mpr x.toNat_lt, by simp⟩
+
+/-- the `whitespace` class contains exactly SP LF CR TAB FF (whatever the order or multiplicity it is written in) -/
+def wsClassOk (t : Table) : Bool :=
+  allBytes.all fun x => t.whitespace.contains x == ([32, 10, 13, 9, 12] : List UInt8).contains x
+
+/-- the `alpha` class is exactly a–z, A–Z (whatever the ranges it is written as) -/
+def alphaClassOk (t : Table) : Bool :=
+  allBytes.all fun x => t.alpha.any (fun r => r.1 ≤ x && x ≤ r.2) ==
+    ([(97, 122), (65, 90)] : List (UInt8 × UInt8)).any (fun r => r.1 ≤ x && x ≤ r.2)
+
 /-- the side-condition: the tag states resolve like the expected ones (`stateMatches`); the character classes are
 the ASCII letters and the five HTML whitespace bytes; the data state is where `tag_open_state` comes from -/
 def TagStatesOk (t : Table) : Bool :=
-  (expected t).all (stateMatches t) &&
-  t.whitespace == [32, 10, 13, 9, 12] && t.alpha == [(97, 122), (65, 90)] && t.dataState == 2
+  (expected t).all (stateMatches t) && wsClassOk t && alphaClassOk t && t.dataState == 2
 
 /-- diagnostics: (state name or index, code): 2000 = missing state / class mismatch, 1000 = enter actions or memchr
 needle differ, 3000 = sequence arms differ, otherwise the first input class that resolves to a different arm:
@@ -123,8 +138,8 @@ needle differ, 3000 = sequence arms differ, otherwise the first input class that
 non-last slice -/
 def tagStatesWitness (t : Table) : List (String × Nat) :=
   ((expected t).filterMap (stateWitness t)) ++
-  (if t.whitespace == [32, 10, 13, 9, 12] then [] else [("whitespace class", 2000)]) ++
-  (if t.alpha == [(97, 122), (65, 90)] then [] else [("alpha class", 2000)]) ++
+  (if wsClassOk t then [] else [("whitespace class", 2000)]) ++
+  (if alphaClassOk t then [] else [("alpha class", 2000)]) ++
   (if t.dataState == 2 then [] else [("data state index", 2000)])
 
 /-! ## Facts extracted from the side-condition -/
@@ -141,10 +156,17 @@ theorem state_of_ok {t : Table} (h : TagStatesOk t = true) {s : Nat} {k : Key} (
   simp only [Bool.and_eq_true, List.all_eq_true] at h
   exact state_of_matches (h.1.1.1 _ hm)
 
-theorem ws_of_ok {t : Table} (h : TagStatesOk t = true) : t.whitespace = [32, 10, 13, 9, 12] := by
-  unfold TagStatesOk at h; simp only [Bool.and_eq_true, beq_iff_eq] at h; exact h.1.1.2
-theorem alpha_of_ok {t : Table} (h : TagStatesOk t = true) : t.alpha = [(97, 122), (65, 90)] := by
-  unfold TagStatesOk at h; simp only [Bool.and_eq_true, beq_iff_eq] at h; exact h.1.2
+theorem ws_of_ok {t : Table} (h : TagStatesOk t = true) (x : UInt8) :
+    x ∈ t.whitespace ↔ x ∈ ([32, 10, 13, 9, 12] : List UInt8) := by
+  unfold TagStatesOk wsClassOk at h
+  simp only [Bool.and_eq_true, List.all_eq_true, beq_iff_eq] at h
+  have := h.1.1.2 x (mem_allBytes x)
+  rw [← List.contains_iff_mem, ← List.contains_iff_mem, this]
+theorem alpha_of_ok {t : Table} (h : TagStatesOk t = true) (x : UInt8) :
+    t.alpha.any (fun r => r.1 ≤ x && x ≤ r.2) = ([(97, 122), (65, 90)] : List (UInt8 × UInt8)).any (fun r => r.1 ≤ x && x ≤ r.2) := by
+  unfold TagStatesOk alphaClassOk at h
+  simp only [Bool.and_eq_true, List.all_eq_true, beq_iff_eq] at h
+  exact h.1.2 x (mem_allBytes x)
 theorem data_of_ok {t : Table} (h : TagStatesOk t = true) : t.dataState = 2 := by
   unfold TagStatesOk at h; simp only [Bool.and_eq_true, beq_iff_eq] at h; exact h.2
 
